@@ -9,7 +9,11 @@ binding      : phase 1 runs every scenario un-cancelled and records the schedule
                every gate: before/after each client write, before/after each server packet, while the receiver is
                parked in Read, inside callbacks (plan op "cancel", rcancel); the bytes the cancel-watch writes are
                tokenised (exactly one Cancel packet), Close calls, the error (errors.Is against the context's error)
-               and left-over library goroutines are recorded; TLC validates against Trace_QL."""
+               and left-over library goroutines are recorded; TLC validates against Trace_QL.  The wall-clock half
+               ("within the read timeout plus a bounded grace period") is checked on free-running runs: the server
+               falls silent, the caller cancels 0.3 / 3 / 12 ms into the query, with and without a deadline an hour
+               away on its context; Do must return the context's error with the client closed within ReadTimeout (2 ms)
+               + 4 s (Trace_Prompt.tla: the fairness assumption of the liveness proof, as an obligation of the code)."""
 import json
 import os
 import random
@@ -97,6 +101,58 @@ def body(run):
     Q.fill_coverage(run, st, stats, v, lines, len(scs))
     run.coverage["baseline_runs"] = len(runs)
     run.coverage["cancel_at_gate_scenarios"] = gates
+    prompt(run, drv, rng)
+
+
+def prompt(run, drv, rng):
+    """The wall-clock half of the property, on free-running runs: the server falls silent, the caller cancels (with and
+    without a far-away deadline on its context), Do must return the context's error within ReadTimeout + grace."""
+    T = run.thorough()
+    cases = []
+    quiet_select = [Q.S("hdr"), Q.S("hdr", "data"), Q.S("prog"), Q.S("hdr", "prog", "data", Q.P("log", 1))]
+    quiet_insert = [Q.S("hdr"), Q.S("hdr", "prog")]          # the data is taken, no end of stream follows
+    for far in (False, True):
+        for at in (300, 3000, 12000):        # before, around and well after the first read time-out (2 ms)
+            for s in quiet_select:
+                cases.append((Q.cfg("select", s), far, at))
+            for s in quiet_insert:
+                cases.append((Q.cfg("insert", s, init_rows=1), far, at))
+                cases.append((Q.cfg("stream", s, plan=Q.PLANS_OK[2], init_rows=1), far, at))
+    items = []
+    for i, (c, far, at) in enumerate(cases):
+        items.append({"scenario": Q.scenario("c10p-%d" % (i + 1), c, compression=rng.choice(["disabled", "lz4"])), "foreignClose": False, "cancel": True,
+                      "farDeadline": far, "cancelAtUs": at, "seed": run.seed * 1000 + i, "repeat": 6 if T else 2})
+    wd = V.workdir(PID, "prompt")
+    fin, fout = os.path.join(wd, "in.ndjson"), os.path.join(wd, "out.ndjson")
+    with open(fin, "w") as f:
+        f.write("\n".join(json.dumps(x) for x in items) + "\n")
+    rc, so, se, wall = V.run_driver(drv, ["free", "-in", fin, "-out", fout, "-par", "4"], timeout=1800)
+    if rc != 0:
+        raise V.Inconclusive("free driver failed rc=%d: %s" % (rc, (se or so)[-2000:]))
+    lines = V.read_ndjson(fout)
+    v = V.validate_traces(PID, "Trace_Prompt", "Trace_Prompt.cfg", lines, lambda l: True, timeout=600, name="tv-prompt", nshards=2)
+    worst = max([json.loads(x).get("afterCancelMs", -1) for x in lines] + [-1])
+    V.log("  promptness: %d free-running cancelled runs on a silent server (half with a deadline an hour away), slowest return %d ms after the cancellation; %d rejected" % (
+        len(lines), worst, len(v.rejections)))
+
+    def key(rj):
+        try:
+            e = json.loads(rj["line"])
+            return "prompt:%s:%s" % ("far-deadline" if e["farDeadline"] else "no-deadline", "stuck" if e["stuck"] else ("late" if e["err"] == "ctx" else "err=" + e["err"]))
+        except Exception:
+            return "prompt:?"
+
+    def desc(rj):
+        e = json.loads(rj["line"])
+        return "scenario %s (%s, script %s, context %s): cancelled while the server was silent; Do returned err=%s closed=%s %s ms after the cancellation%s (read time-out %s ms)" % (
+            e["id"], e["cfg"]["scn"], [i["k"] for i in e["cfg"]["script"]], "with a deadline an hour away" if e["farDeadline"] else "without a deadline",
+            e["err"], e["closed"], e["afterCancelMs"], " - " + e["stuck"] if e["stuck"] else "", e["readTimeoutMs"])
+    run.add_trace_rejections(v, key, desc)
+    if len(lines) < 30:
+        raise V.Inconclusive("promptness runs missing: %d" % len(lines))
+    run.coverage["prompt_runs"] = len(lines)
+    run.coverage["prompt_slowest_ms"] = worst
+    run.assumptions.append("promptness is measured with real time on free-running runs (read time-out 2 ms, grace 4 s): a loaded machine can only make the check slower, not fail, unless a return takes more than 4 s")
 
 
 if __name__ == "__main__":
